@@ -31,8 +31,11 @@ PARTIAL = [
     "proved: the sum/skew (in)decomposable and '1 plus q' shapes (zeroPlusSumind_iff_def, zeroPlusSkewind_iff_def, "
     "zeroPlusPerm_iff_def) and the '1 plus q' decomposition of Rd2134 / Ru2143 (validRd2134_iff, validRu2143_iff)",
     "A1 `p not in Av(B)` is modelled as `p avoids Basis(B)` (C02); proved from there: appliesToSym_iff, coreApplies_iff",
-    "A2 invariance of the core strategies' answers under the eight symmetries (needs the D8 composition table of C04) - "
-    "evaluated (sym8find lines); proved: insEncApplies_sym, and invariance under order/repetition for everything",
+    "A2 invariance under the eight symmetries is PROVED for every strategy and both searches (coreApplies_sym, "
+    "insEnc_applies_sym, appliesByName_sym, findStrategies_sym, findStrategies_quick_sym) with has_finite_simples as "
+    "the opaque input it is in the model: the slow search is invariant GIVEN the same verdict for the basis and its "
+    "image (findStrategies_sym_of_verdict); that PinWords.has_finite_simples itself is symmetry-invariant is C16's "
+    "business and is only evaluated here (sym8find lines of the slow search)",
 ]
 TRUSTED = ["has_finite_simples verdict taken from the implementation (C16 models it)",
            "Basis(*perms) is modelled by sort + prune with the C01 containment model"]
